@@ -191,7 +191,8 @@ impl Resolver<'_, FilterSet, MpFilterExpr> for RpslEvaluator {
                             }))
                             .transpose()
                         })
-                        .unwrap_or_else(|| Ok("NOT ANY".parse()?))
+                        // an answer without an object says nothing about what the set matches
+                        .unwrap_or_else(|| Err(Error::FindFilterAttribute(filter_set.to_string())))
                 })
         })
     }
